@@ -99,8 +99,12 @@ class LiftedScript:
         _state["counter"] += 1
         self.script_handle = "<lx-script-%d>" % _state["counter"]
         self.handles = []
+        first = {}
         for i, ps in enumerate(self.stmts):
-            self.handles.append("%s /*lx%d.%d*/" % (ps.sql, _state["counter"], i))
+            # statements with the same template text ARE the same text under every naming: they share a handle, so that code
+            # keyed by statement text (a cache, a dict of results) meets the coincidence
+            k = first.setdefault(ps.sql, i)
+            self.handles.append("%s /*lx%d.%d*/" % (ps.sql, _state["counter"], k))
         self.slots = []
         for ps in self.stmts:
             for s in ps.slots:
@@ -122,13 +126,16 @@ class LiftedScript:
         _state["scripts"][self.script_handle] = handles
         for h, ps in zip(self.handles, self.stmts):
             _state["trees"][h] = [ps.seg]
-        _state["roots"].pop(self.script_handle, None)
+        run_handle = self.script_handle
         if tsql and self.seps is not None:
             rp = self.root_statement()
             rp.symbolise(res, anycase_tag=("%s_root" % anycase_tag) if anycase_tag else None)
-            _state["roots"][self.script_handle] = rp.seg
-            _state["trees"].pop(self.script_handle, None)
-            _state["scripts"][self.script_handle] = [self.script_handle]
+            # in ROOT mode the runner is handed the template's own TEXT (plus a tag): code that looks at the script text
+            # before parsing it (is there a ';' in it?) sees what a user's script would show
+            run_handle = "%s /*lx-root%s*/" % (self.script_text(), self.script_handle[11:-1])
+            _state["roots"][run_handle] = rp.seg
+            _state["trees"].pop(run_handle, None)
+            _state["scripts"][run_handle] = [run_handle]
         elif tsql:
             # T-SQL no-semicolon mode: the script itself goes to the parse entry point, which yields every statement;
             # sqlparse's split (no semicolons in such a script) would see ONE piece
@@ -140,7 +147,7 @@ class LiftedScript:
             kw["metadata_provider"] = provider
         with warnings.catch_warnings():
             warnings.simplefilter("ignore")
-            return LineageRunner(self.script_handle, dialect=self.dialect, **kw)
+            return LineageRunner(run_handle, dialect=self.dialect, **kw)
 
     def script_text(self):
         out = self.stmts[0].sql
